@@ -47,9 +47,14 @@ def _random_circuit(rng, n_qubits, depth, measurements, tagged=False):
         if measurements and rng.random() < 0.22:
             key = rng.choice(["a", "b"])
             mq = rng.sample(qs, rng.randrange(1, min(2, n_qubits) + 1))
-            mop = cirq.measure(*mq, key=key, invert_mask=(rng.random() < 0.3,))
-            moments_ops.append(mop)
-            keys_used.append(key)
+            # a repeated key must keep its shape (Cirq rejects records of different widths under one key)
+            prev = [len(o.qubits) for o in moments_ops if cirq.is_measurement(o) and cirq.measurement_key_name(o) == key]
+            if prev and prev[0] != len(mq):
+                mq = (mq + [x for x in qs if x not in mq])[: prev[0]]
+            if not prev or len(mq) == prev[0]:
+                mop = cirq.measure(*mq, key=key, invert_mask=(rng.random() < 0.3,))
+                moments_ops.append(mop)
+                keys_used.append(key)
         if measurements and keys_used and rng.random() < 0.2 and not cirq.is_measurement(op):
             op = op.with_classical_controls(rng.choice(keys_used))
         moments_ops.append(op)
